@@ -57,7 +57,28 @@ def make_markers(r, dim, shape, dx, shift, n, real_t):
     return pos.astype(real_t), kinds
 
 
+class CommunicatorRaised(Exception):
+    """a communicator kernel raised on admissible markers (at least two cells inside the grid): carries the failing input"""
+
+    def __init__(self, failing_input):
+        super().__init__(failing_input["what"])
+        self.failing_input = failing_input
+
+
 def run_impl(dim, shape, dx, shift, kernel, real_t, pos, u, uvec, F, Fvec, E0, E0vec):
+    try:
+        return _run_impl_raw(dim, shape, dx, shift, kernel, real_t, pos, u, uvec, F, Fvec, E0, E0vec)
+    except Exception as e:  # noqa: BLE001
+        import traceback
+
+        tb = traceback.format_exc()
+        stage = [l.strip() for l in tb.splitlines() if "_kernel(" in l]
+        raise CommunicatorRaised({"oracle": "communicator_raises", "what": f"a communicator kernel raised {type(e).__name__}: {str(e)[:200]} on markers that are "
+                                  "at least two cells inside the grid", "stage": stage[-1][:160] if stage else None, "dim": dim, "kernel": kernel,
+                                  "dtype": real_t.__name__, "grid": list(shape), "dx": float(dx), "shift": float(shift), "positions": np.asarray(pos).tolist()}) from e
+
+
+def _run_impl_raw(dim, shape, dx, shift, kernel, real_t, pos, u, uvec, F, Fvec, E0, E0vec):
     """returns dict with idx, weights (window arrays), interp scalar/vector, spread scalar/vector (two calls)"""
     n = pos.shape[1]
     cls = ibo.EulerianLagrangianGridCommunicator2D if dim == 2 else ibo.EulerianLagrangianGridCommunicator3D
@@ -185,6 +206,13 @@ def _setup(seed, dim, kernel, real_t, k, dyadic=None):
 
 
 def run(seed=0, tier="quick"):
+    try:
+        return _run(seed, tier)
+    except CommunicatorRaised as e:
+        return {"ok": False, "cases": 0, "samples": [], "name": "Model/Interp vs numba communicators", "detail": str(e), "failing_input": e.failing_input}
+
+
+def _run(seed=0, tier="quick"):
     reqs, impls, meta = [], [], []
     for dim, kernel, real_t, k in _configs(seed, tier):
         r, shape, dx, shift, n, pos, kinds, u, uvec, F, Fvec, E0, E0vec = _setup(seed, dim, kernel, real_t, k)
@@ -271,6 +299,13 @@ def _oracle_configs(seed, tier):
 
 
 def oracle_c06(seed=0, tier="quick", aimed=None):
+    try:
+        return _oracle_c06(seed, tier, aimed)
+    except CommunicatorRaised as e:
+        return {"ok": False, "cases": 0, "samples": [], "failing_input": e.failing_input}
+
+
+def _oracle_c06(seed=0, tier="quick", aimed=None):
     cases = 0
     samples = []
     for dim, kernel, real_t, k, dyadic in [(*c, dy) for c in _oracle_configs(seed + 7, tier) for dy in ([None, True] if c[1] == "peskin" else [None])]:
@@ -357,10 +392,15 @@ def oracle_c06(seed=0, tier="quick", aimed=None):
             cls = ibo.EulerianLagrangianGridCommunicator2D if dim == 2 else ibo.EulerianLagrangianGridCommunicator3D
             cv = cls(dx=dx, eul_grid_coord_shift=shift, num_lag_nodes=n, interp_kernel_width=2, real_t=real_t, n_components=dim, interp_kernel_type=kernel)
             sup = np.zeros((dim,) + (4,) * dim + (n,), dtype=real_t); idx = np.zeros((dim, n), dtype=int); w = np.zeros((4,) * dim + (n,), dtype=real_t)
-            cv.local_eulerian_grid_support_of_lagrangian_grid_kernel(sup, idx, pos)
-            cv.interpolation_weights_kernel(w, sup)
             out = np.zeros((dim, n), dtype=real_t)
-            cv.eulerian_to_lagrangian_grid_interpolation_kernel(out, posf, w, idx)
+            try:
+                cv.local_eulerian_grid_support_of_lagrangian_grid_kernel(sup, idx, pos)
+                cv.interpolation_weights_kernel(w, sup)
+                cv.eulerian_to_lagrangian_grid_interpolation_kernel(out, posf, w, idx)
+            except Exception as e:  # noqa: BLE001
+                raise CommunicatorRaised({"oracle": "communicator_raises", "what": f"a communicator kernel raised {type(e).__name__}: {str(e)[:200]} on markers "
+                                          "sitting on cell centres at least two cells inside the grid", "dim": dim, "kernel": kernel, "dtype": real_t.__name__,
+                                          "grid": list(shape), "dx": float(dx), "positions": pos.tolist()}) from e
             cases += 1
             err = np.abs(out.astype(np.float64) - pos.astype(np.float64)).max()
             eps = float(np.finfo(real_t).eps)
@@ -424,6 +464,13 @@ def oracle_c06(seed=0, tier="quick", aimed=None):
 
 
 def oracle_c07(seed=0, tier="quick", aimed=None):
+    try:
+        return _oracle_c07(seed, tier, aimed)
+    except CommunicatorRaised as e:
+        return {"ok": False, "cases": 0, "samples": [], "failing_input": e.failing_input}
+
+
+def _oracle_c07(seed=0, tier="quick", aimed=None):
     cases = 0
     samples = []
     for dim, kernel, real_t, k in _oracle_configs(seed + 11, tier):
